@@ -91,3 +91,8 @@ add('C06', 'property-based testing: generated (formula, data, semantics, io assi
     'in which insensitive predicates contribute +-inf by satisfaction (0 under vacuity); under STANDARD the result must not depend on the declarations.',
     'Trusted: vlib/refsem.py with the ia rule transcribed from the property text; undeclared io = output.',
     'DESIGN.md section 5 C06')
+add('C20', 'property-based testing: sufficiency oracle - generated re-assignments of all non-reported (variable, sample) positions must keep the reference robustness at time 0 negative (Hypothesis)',
+    'Generated formulas of the explainer fragment on violating traces; explain() output is read per input variable, 10 generated re-assignments (extreme and small values) of everything '
+    'outside the reported positions are evaluated by the reference semantics and must still violate; satisfied specifications must report nothing.',
+    'Trusted: vlib/refsem.py; violation = robustness < 0 (the criterion explain() uses), a re-assigned trace with robustness exactly 0 only counts if the Boolean reference also says satisfied.',
+    'DESIGN.md section 5 C20')
